@@ -1,7 +1,7 @@
 #!/bin/sh
 # tools/try_copy.sh <name> <patch.diff> [check ids...]
 # Triage helper: applies a patch to a scratch worktree of /repo under /dev/shm, builds a copy of the
-# simulator against it (shared target dir /dev/shm/try-target), runs the named quick checks, removes the
+# simulator against it (shared target dir ${TRY_TARGET:-/dev/shm/try-target}), runs the named quick checks, removes the
 # scratch worktree. /repo itself is not touched. (Final confirmation of a kept change is done with
 # tools/try_patch.sh, which applies it to /repo and reverts.)
 NAME="$1"; PATCH="$2"; shift 2
@@ -16,8 +16,8 @@ if [ "$PATCH" != "-" ]; then git -C "$D/repo" apply "$PATCH" || { echo "patch do
 # the committed simulator (HEAD), so that work in progress in /verif/sim does not leak into a trial
 git -C /verif archive HEAD sim | tar -x -C "$D"
 sed -i "s|path = \"/repo\"|path = \"$D/repo\"|" "$D/sim/Cargo.toml"
-(cd "$D/sim" && CARGO_TARGET_DIR=/dev/shm/try-target CARGO_NET_OFFLINE=true cargo build --release --offline >"$D/build.log" 2>&1) || { echo "BUILD FAILED"; tail -20 "$D/build.log"; exit 2; }
-cp /dev/shm/try-target/release/scsim "$D/scsim"
+(cd "$D/sim" && CARGO_TARGET_DIR=${TRY_TARGET:-/dev/shm/try-target} CARGO_NET_OFFLINE=true cargo build --release --offline >"$D/build.log" 2>&1) || { echo "BUILD FAILED"; tail -20 "$D/build.log"; exit 2; }
+cp ${TRY_TARGET:-/dev/shm/try-target}/release/scsim "$D/scsim"
 mkdir -p "$D/verif"
 for c in $CHECKS; do
   # TRY_RUNS_DIV=N: first with 1/N of the runs; a PASS is repeated with the full number
